@@ -35,7 +35,7 @@ def run(ctx):
     for k in (1, 2, 3):
         prod = list(itertools.product(S, repeat=k))
         if quick and k == 3:
-            prod = prod[ctx.seed % 4::4]
+            prod = rng.sample(prod, len(prod) // 4)
         for t in prod:
             tot = sum(map(len, t))
             for L in range(tot + 1):
